@@ -6,7 +6,7 @@ ROUNDS=$1; TIER=$2; shift 2
 ROOT=$(mktemp -d /tmp/flake-root.XXXXXX); cp known_findings.json "$ROOT/"
 n=0; bad=0
 for r in $(seq 1 $ROUNDS); do
- s=$(( (r * 7) % 97 + 1 ))
+ s=$(( (r * ${FLAKE_MULT:-7} + ${FLAKE_OFF:-0}) % 9973 + 1 ))
  for p in "$@"; do
   out=$(VERIF_SEED=$s VERIF_ROOT="$ROOT" ./check $p "$TIER" 2>&1); rc=$?
   n=$((n+1))
